@@ -1,7 +1,7 @@
 CONSTANTS
   Leaves = {"l1", "l2", "l3"}
-  CountAtSend = TRUE
-  CountThenMerge = FALSE
+  CountAtSend = FALSE
+  CountThenMerge = TRUE
 SPECIFICATION MCSpec
-INVARIANTS CompleteAfterAll
+INVARIANTS ResultComplete
 CHECK_DEADLOCK FALSE
